@@ -100,6 +100,7 @@ def step (w : World) (line : String) : World × String :=
   | ["off", n, o] => ({ w with offs := w.offs.set n.toNat! (o.toInt?.getD 0) }, "ok")
   | ["screate", n, id, cl, mp, will] =>
     let i := n.toNat!
+    let cl := if cl = "~" then "" else cl   -- the empty client identifier
     let (st, ev, err) := sessCreate (w.node i) (w.now i) id cl 0 (parseWill will) mp
     localOp w i (st, ev) (showErr err)
   | ["sdelete", n, id] =>
